@@ -30,6 +30,14 @@ static int replay_C16(const Args& a)
    auto* es = lex.make_elementary_substitution(*p, *v);
    CLAUSE(&(*es)[*p] == static_cast<const Expr*>(v), "elementary substitution maps its parameter to the bound expression");
    CLAUSE(&(*es)[*q] == static_cast<const Expr*>(q), "elementary substitution maps any other parameter to itself");
+   // parameters of ANOTHER parameter list at the same nesting level and position must not be captured
+   auto* m2 = lex.make_mapping(*r);
+   auto* p2 = m2->param(lex.get_identifier(u8"x"), lex.int_type());
+   auto* q2 = m2->param(lex.get_identifier(u8"y"), lex.int_type());
+   CLAUSE(&(*es)[*p2] == static_cast<const Expr*>(p2), "elementary substitution leaves a same-position parameter of another list unchanged");
+   CLAUSE(&(*es)[*q2] == static_cast<const Expr*>(q2), "elementary substitution leaves any parameter of another list unchanged");
+   auto* es2 = lex.make_elementary_substitution(*q, *p);     // bound expression is itself a parameter
+   CLAUSE(&(*es2)[*q] == static_cast<const Expr*>(p) && &(*es2)[*p] == static_cast<const Expr*>(p), "elementary substitution [q -> p]");
    auto* gs = lex.make_general_substitution();
    CLAUSE(&(*gs)[*q] == static_cast<const Expr*>(q), "general substitution: parameter outside the domain maps to itself");
    gs->subst(*p, *v);
@@ -37,6 +45,12 @@ static int replay_C16(const Args& a)
    CLAUSE(&(*gs)[*q] == static_cast<const Expr*>(q), "general substitution: other parameter unchanged by subst");
    gs->subst(*p, *w);
    CLAUSE(&(*gs)[*p] == static_cast<const Expr*>(w), "general substitution: latest binding wins");
+   CLAUSE(&(*gs)[*p] == static_cast<const Expr*>(w), "general substitution: repeated query after rebinding");
+   gs->subst(*p, *p);
+   CLAUSE(&(*gs)[*p] == static_cast<const Expr*>(p), "general substitution: identity rebinding replaces the earlier binding");
+   gs->subst(*q, *v); (void)(*gs)[*q]; gs->subst(*q, *w);
+   CLAUSE(&(*gs)[*q] == static_cast<const Expr*>(w), "general substitution: query, rebind, query");
+   CLAUSE(&(*gs)[*p2] == static_cast<const Expr*>(p2), "general substitution: parameter of another list unchanged");
    (void)a;
    return fails;
 }
@@ -110,6 +124,62 @@ static int replay_C08(const Args& a)
    return fails;
 }
 
+// ---- C10: native sweep over the public API (all subsets, all pairs on a sample, unknown names incl. near misses, call sequences)
+static int replay_C10(const Args&)
+{
+   impl::Lexicon lex;
+   struct Acc { const char8_t* name; Specifiers v; };
+   const Acc acc[] = { {u8"export", lex.export_specifier()}, {u8"static", lex.static_specifier()}, {u8"extern", lex.extern_specifier()}, {u8"mutable", lex.mutable_specifier()},
+      {u8"thread_local", lex.thread_local_specifier()}, {u8"register", lex.register_specifier()}, {u8"inline", lex.inline_specifier()}, {u8"consteval", lex.consteval_specifier()},
+      {u8"constexpr", lex.constexpr_specifier()}, {u8"virtual", lex.virtual_specifier()}, {u8"=0", lex.abstract_specifier()}, {u8"explicit", lex.explicit_specifier()},
+      {u8"friend", lex.friend_specifier()}, {u8"typedef", lex.typedef_specifier()}, {u8"public", lex.public_specifier()}, {u8"protected", lex.protected_specifier()}, {u8"private", lex.private_specifier()} };
+   std::vector<Basic_specifier> basis = lex.decompose(Specifiers(~std::uintptr_t{}));
+   CLAUSE(basis.size() == 18, "decompose(all bits) lists the 18 basic specifiers");
+   std::vector<Specifiers> sets; bool ok = true;
+   for (auto b : basis) sets.push_back(lex.specifiers(b));
+   for (size_t i = 0; i < sets.size(); ++i) { if (util::rep(sets[i]) == 0) ok = false; for (size_t j = 0; j < i; ++j) if (util::rep(sets[i] & sets[j]) != 0) ok = false; }
+   CLAUSE(ok, "basic specifiers map to non-empty, pairwise disjoint sets");
+   ok = true;
+   for (auto& a : acc) { bool hit = false; for (size_t i = 0; i < basis.size(); ++i) if (basis[i].logogram().what().characters() == a.name) { hit = true; if (sets[i] != a.v) ok = false; } if (!hit) ok = false; }
+   CLAUSE(ok, "named specifier accessors equal the mapping of their own name");
+   ok = true;
+   for (unsigned sel = 0; sel < (1u << basis.size()) && ok; ++sel) {
+      Specifiers m{}; std::vector<const Logogram*> want;
+      for (size_t i = 0; i < basis.size(); ++i) if ((sel >> i) & 1) { m |= sets[i]; want.push_back(&basis[i].logogram()); }
+      auto d = lex.decompose(m); if (d.size() != want.size()) { ok = false; break; }
+      for (size_t k = 0; k < d.size(); ++k) if (&d[k].logogram() != want[k]) ok = false;
+   }
+   CLAUSE(ok, "for all 2^18 subsets decompose(union) is exactly the subset, in table order");
+   auto quals = lex.decompose(Qualifiers(~std::uintptr_t{}));
+   CLAUSE(quals.size() == 3, "decompose(all bits) lists the 3 basic qualifiers");
+   ok = true;
+   for (unsigned sel = 0; sel < 8; ++sel) { Qualifiers m{}; unsigned n = 0; for (size_t i = 0; i < quals.size(); ++i) if ((sel >> i) & 1) { m |= lex.qualifiers(quals[i]); ++n; }
+      if (lex.decompose(m).size() != n) ok = false; }
+   CLAUSE(ok, "qualifier subsets decompose exactly");
+   // algebra on a sample of pairs, incl. empty and partly-contained second operands
+   ok = true; std::uintptr_t x = 0x9E3779B97F4A7C15ull;
+   for (int it = 0; it < 20000; ++it) { x ^= x << 13; x ^= x >> 7; x ^= x << 17; std::uintptr_t a = x & 0x3ffff; x ^= x << 13; x ^= x >> 7; x ^= x << 17; std::uintptr_t b = (it % 7 == 0) ? 0 : (x & 0x3ffff);
+      Specifiers A{a}, B{b};
+      if (util::rep(A | B) != (a | b) || util::rep(A & B) != (a & b) || util::rep(A ^ B) != (a ^ b) || implies(A, B) != ((b & ~a) == 0)) ok = false; }
+   CLAUSE(ok, "| & ^ implies are the set operations on 20000 sampled pairs");
+   // unknown names: non-basic reserved words, near misses, fresh logograms; each asked twice, interleaved with successful queries
+   ok = true;
+   const char8_t* unknown[] = { u8"override", u8"constexpr", u8"consteval", u8"constinit", u8"const_cast", u8"static_assert", u8"=0;", u8"volatil", u8"int", u8"", u8"restrict " };
+   for (auto w : unknown) {
+      auto& logo = lex.get_logogram(lex.get_string(w));
+      for (int round = 0; round < 3; ++round) {
+         if (round == 0) { (void)lex.specifiers(basis[5]); (void)lex.qualifiers(quals[0]); }   /* second round: asked again right after the refusal */
+         bool is_q = false, is_s = false;
+         for (auto q : quals) if (q.logogram().what().characters() == w) is_q = true;
+         for (auto b : basis) if (b.logogram().what().characters() == w) is_s = true;
+         if (!is_q) { try { (void)lex.qualifiers(Basic_qualifier{logo}); ok = false; std::cout << "qualifier answered for unknown name\n"; } catch (...) { } }
+         if (!is_s) { try { (void)lex.specifiers(Basic_specifier{logo}); ok = false; std::cout << "specifier answered for unknown name\n"; } catch (...) { } }
+      }
+   }
+   CLAUSE(ok, "unknown names (non-basic words, near misses) are refused, also when asked again after a successful query");
+   return fails;
+}
+
 int main(int argc, char** argv)
 {
    if (argc < 2) return 3;
@@ -119,6 +189,7 @@ int main(int argc, char** argv)
    try {
       if (f == "C16") n = replay_C16(a);
       else if (f == "C08") n = replay_C08(a);
+      else if (f == "C10") n = replay_C10(a);
       else { std::cerr << "unknown replay family " << f << "\n"; return 3; }
    } catch (const std::exception& e) { std::cout << "REPLAY-EXCEPTION: " << e.what() << "\n"; return 4; }
    return n > 0 ? 1 : 0;
